@@ -182,7 +182,7 @@ def eject(file: str, mode: str, output_format: str):
         else:  # octave
             output = result.output
 
-        click.echo(output)
+        click.echo(output, color=True)  # document text is data: keep ANSI escape sequences when piped
 
     except Exception as e:
         click.echo(f"Error: {e}", err=True)
@@ -291,7 +291,7 @@ def validate(file: str | None, use_stdin: bool, schema: str | None, fix: bool, v
 
         # Output canonical form
         canonical = emit(doc)
-        click.echo(canonical)
+        click.echo(canonical, color=True)  # document text is data: keep ANSI escape sequences when piped
 
         # Output validation status
         click.echo(f"\nvalidation_status: {validation_status}")
@@ -676,7 +676,7 @@ def hydrate(
 
             click.echo(f"Hydrated document written to: {write_result['path']}")
         else:
-            click.echo(output_content)
+            click.echo(output_content, color=True)
 
     except hydrator.CollisionError as e:
         click.echo(f"Error: Term collision - {e}", err=True)
@@ -750,7 +750,7 @@ def normalize(file: str, output: str | None):
 
             click.echo(f"Normalized document written to: {write_result['path']}")
         else:
-            click.echo(output_content)
+            click.echo(output_content, color=True)
 
     except SystemExit:
         raise
@@ -824,7 +824,7 @@ def seal(file: str, output: str | None):
 
             click.echo(f"Sealed document written to: {write_result['path']}")
         else:
-            click.echo(output_content)
+            click.echo(output_content, color=True)
 
     except SystemExit:
         raise
